@@ -995,6 +995,8 @@ func (m *Machine) enterLoopHeader(st *State, fr *Frame, from, header *ssa.BasicB
 			}
 			savedBase := st.evBase
 			st.evBase = cut.evBase
+			m.iterCut = cut
+			defer func() { m.iterCut = nil }()
 			// X_next: the value the loop-carried variable X takes for the next iteration
 			for _, ins := range header.Instrs {
 				phi, ok := ins.(*ssa.Phi)
